@@ -167,6 +167,28 @@ CtorSptenmatStimuli ==
 CtorSpNegStimuli ==
   {St("ctor_sptensor_neg", [shape |-> s, minsub |-> m], IF m >= 0 THEN "ok" ELSE "nonneg") : s \in {<<2, 3>>, <<2, 3, 2>>}, m \in {0, 0 - 1, 0 - 2}}
 
+\* ---- families added after the fourth seeding round (side observations: arguments accepted silently)
+ModeArgStimuli ==
+  {St("k_mode_arg", [N |-> 3, op |-> o, mode |-> m], IF m \in 0..2 THEN "ok" ELSE "mode_in_range") :
+     o \in {"normalize_wf", "normalize_mode", "redistribute", "arrange_wf"}, m \in {0, 2, 3, 5, 0 - 1, 0 - 3}}
+UpdateRepStimuli ==
+  {St("k_update", [rows |-> <<2, 3, 2>>, R |-> 2, modes |-> m, datalen |-> 24], "modes_distinct") : m \in {<<0, 0>>, <<1, 2, 1>>}}
+ReconstructStimuli ==
+  {St("tt_reconstruct", [N |-> 3, modes |-> m], w) :
+     m \in {<<0>>, <<2, 0>>, <<0, 1, 2>>}, w \in {"ok"}}
+  \cup {St("tt_reconstruct", [N |-> 3, modes |-> <<3>>], "modes_in_range"), St("tt_reconstruct", [N |-> 3, modes |-> <<0 - 1>>], "modes_in_range"),
+        St("tt_reconstruct", [N |-> 3, modes |-> <<0, 5>>], "modes_in_range"),
+        St("tt_reconstruct", [N |-> 3, modes |-> <<0, 0>>], "modes_distinct"), St("tt_reconstruct", [N |-> 3, modes |-> <<1, 2, 1>>], "modes_distinct")}
+TuckerRankStimuli ==
+  {St("tucker_ranks", [shape |-> <<3, 4, 2>>, ranks |-> r, auto |-> au], "?") :
+     r \in {<<2, 2, 2>>, <<3, 4, 2>>, <<1, 1, 1>>, <<2, 0, 2>>, <<0, 0, 0>>, <<4, 2, 2>>, <<2, 2, 3>>, <<2, 2>>, <<2, 2, 2, 2>>, <<0 - 1, 2, 2>>, <<2, 5, 1>>},
+     au \in {TRUE, FALSE}}
+OptdimsStimuli ==
+  {St("als_optdims", [N |-> 3, optdims |-> d], "?") :
+     d \in {<<0, 1, 2>>, <<1>>, <<2, 0>>, <<0, 3>>, <<7>>, <<0 - 1>>, <<0, 0>>, <<1, 2, 1>>}}
+CtorSptenmatNegStimuli ==
+  {St("ctor_sptenmat_neg", [minrow |-> r, mincol |-> c], IF r >= 0 /\ c >= 0 THEN "ok" ELSE "nonneg") : r \in {0, 0 - 1}, c \in {0, 0 - 2}}
+
 All ==
   (IF "ttv" \in Fams THEN TtvStimuli ELSE {}) \cup (IF "ttm" \in Fams THEN TtmStimuli ELSE {})
   \cup (IF "mttkrp" \in Fams THEN {x \in MttkrpStimuli : MttkrpOk(x)} ELSE {})
@@ -176,6 +198,8 @@ All ==
         ELSE {})
   \cup (IF "more" \in Fams THEN ArrangeStimuli \cup UpdateStimuli \cup SpReshapeStimuli \cup CtorTenmatStimuli
                                \cup CtorSptenmatStimuli \cup CtorSpNegStimuli ELSE {})
+  \cup (IF "args" \in Fams THEN ModeArgStimuli \cup UpdateRepStimuli \cup ReconstructStimuli \cup TuckerRankStimuli
+                               \cup OptdimsStimuli \cup CtorSptenmatNegStimuli ELSE {})
 
 \* keep the well-formed requests and those violating exactly one clause
 \* keep the well-formed requests and those violating at most two clauses (single-clause violations
